@@ -12,7 +12,7 @@ from ..common import Ctx
 
 LEVEL = "exploration"
 
-OPT_FLAGS = ["simplify-else-conditions", "remove-inaccessible-states", "use-delete-for-empty-string", "shortcircuit-fallthroughs", "collapse-transition-ranges"]
+OPT_FLAGS = ["simplify-else-conditions", "remove-inaccesible-states", "use-delete-for-empty-string", "shortcircuit-fallthroughs", "collapse-transition-ranges"]
 PROFILE = {"w": {"hook": 14, "appendc": 4, "assignstr": 5, "finish": 4, "try_": 9, "loop": 8, "case": 10}, "str_defaults": 0.2}
 
 
